@@ -165,11 +165,15 @@ def regenerate_gen(log):
 
 def coq_make(targets, log, jobs=8, timeout=3000):
     """Full .vo build (never -vos/-vok) of the given targets and their dependencies."""
+    # the lock covers regeneration and the dependency scan; compilation itself runs
+    # unlocked so that one long proof build does not serialise every other check
+    # (targets of different properties are disjoint apart from Base/, which is stable)
     with BuildLock():
         failed = regenerate_gen(log)
         regen_coqproject()
-        rc, out = sh(["timeout", str(timeout), "make", f"-j{jobs}"] + targets, cwd=COQ,
-                     timeout=timeout + 60)
+        sh(["timeout", "600", "make", ".Makefile.d"], cwd=COQ, timeout=660)
+    rc, out = sh(["timeout", str(timeout), "make", f"-j{jobs}"] + targets, cwd=COQ,
+                 timeout=timeout + 60)
     log.append(out)
     coq_make.last_translate_failures = failed
     return rc == 0, out
@@ -186,7 +190,7 @@ def print_assumptions(vfile, log):
     if os.path.exists(cache) and os.path.exists(vo) and os.path.getmtime(cache) >= os.path.getmtime(vo):
         out = open(cache).read()
     else:
-        with BuildLock():
+        if True:
             rc, out = sh(["timeout", "900", "coqc", "-Q", ".", "AwVerif", "-w",
                           "-notation-overridden,-deprecated-hint-without-locality,-deprecated-instance-without-locality",
                           vfile], cwd=COQ, timeout=960)
@@ -240,7 +244,7 @@ def build_driver(prop, log, exname=None):
     exname = exname or f"Ex{prop}"
     d = os.path.join(BUILD, prop)
     os.makedirs(d, exist_ok=True)
-    with BuildLock():
+    if True:
         rc, out = sh(f"timeout 600 coqc -Q ../../coq AwVerif ../../coq/Extract/{exname}.v -o {exname}.vo "
                      f"&& cp ../../ocaml/main.ml . "
                      f"&& timeout 600 ocamlfind ocamlopt -O2 -w -a model.mli model.ml main.ml -o driver 2>&1 "
